@@ -8,6 +8,7 @@ import Driver.TriviaProto
 import Driver.CallProto
 import StyluaModel.Model.Cost
 import StyluaModel.Generated.ExitOps
+import StyluaModel.Model.Run
 /-
 `modeld`: one request per line on stdin, one answer per line on stdout.
 The harness runs the real code on the same requests and diffs the answers.
@@ -75,6 +76,18 @@ def handle (line : String) : String :=
       let ts : List StyluaModel.Sched.Thread := [{ ops := StyluaModel.Generated.diffHandlerOps }, { ops := StyluaModel.Generated.loggerOps }]
       let order := sched.toList.map fun c => if c == 'H' then 0 else 1
       toString (StyluaModel.Sched.exec 0 ts order)
+  | ["run", mode, outcomes] =>
+      -- outcomes: one letter per file (s same, d differs, p parse error, u unreadable, v verify failure, m missing path)
+      let oc : Char → Option StyluaModel.Run.Outcome := fun c =>
+        if c == 's' then some .same else if c == 'd' then some .differs else if c == 'p' then some .parseError
+        else if c == 'u' then some .unreadable else if c == 'v' then some .verifyFail else if c == 'm' then some .missing else none
+      let os := outcomes.toList.map oc
+      if os.any (·.isNone) then "bad-op" else
+      let idx : List Nat := List.range os.length
+      let files : List StyluaModel.Run.File := (idx.zip (os.filterMap id)).map fun p => { id := p.1, outcome := p.2 }
+      let m := if mode == "check" then StyluaModel.Run.Mode.check else StyluaModel.Run.Mode.write
+      let r := StyluaModel.Run.run m files files
+      s!"{r.exit} w:{",".intercalate (r.written.map toString)} d:{",".intercalate (r.diffs.map toString)}"
   | ["faithful", i] => Driver.ExprProto.handleFaithful i
   | ["semeq", i, o] => Driver.ExprProto.handleSem i o
   | _ => "bad-op"
